@@ -1,6 +1,7 @@
 """C14 - ADB streams."""
 
 import ast
+import re
 
 from sa import cfg as cfgm
 from sa import core, lib, locks
@@ -552,6 +553,19 @@ def r7_buffer(report, repo):
         if isinstance(d_, ast.FunctionDef) and d_.name == a0.id:
           ptxt = ' '.join(norm(x.value) for x in ast.walk(d_)
                           if isinstance(x, ast.Return) and x.value is not None)
+    elif isinstance(a0, ast.Call) and call_name(a0) in (
+        'functools.partial', 'partial') and a0.args and isinstance(
+            a0.args[0], ast.Attribute) and core.is_name(a0.args[0].value,
+                                                        'self') and \
+        repo.has_func(AP, ST + '.' + a0.args[0].attr):
+      # a method of the transport with its arguments bound
+      m_ = repo.func(AP, ST + '.' + a0.args[0].attr)
+      mp = lib.param_names(m_.node)[1:]
+      bound = dict(zip(mp, [norm(x) for x in a0.args[1:]]))
+      ptxt = ' '.join(norm(x.value) for x in ast.walk(m_.node)
+                      if isinstance(x, ast.Return) and x.value is not None)
+      for k, v_ in bound.items():
+        ptxt = re.sub(r'\b%s\b' % re.escape(k), v_, ptxt)
   ok = len(pred) == 1 and 'self._buffer_size' in ptxt and \
       lib.param_names(f.node)[1] in ptxt
   report.check(ok, rule, f.qualname, 'waits-for-data', f.node,
